@@ -9,15 +9,19 @@ Section PersistProofs.
   Variable dec : B -> option W.
   Variable PN : Type.
   Variable view : W -> wb_view.
-  Variable parse_names : W -> PN.
+  Variable parse_names : wb_view -> PN.
+  Variable cf_eval : W -> W.
   Variable valid_locale valid_tz valid_lang : text -> bool.
   Variable lex_rc : text -> list token.
   Variable nm : names.
   (* the codec law: checked by the harness on every generated workbook (Workbook: PartialEq) *)
   Hypothesis bitcode_rt : forall w, dec (enc w) = Some w.
+  (* evaluate_conditional_formatting writes computed values only; nothing to do without conditional formats *)
+  Hypothesis cf_view : forall w, view (cf_eval w) = view w.
+  Hypothesis cf_none : forall w, v_has_cf (view w) = false -> cf_eval w = w.
 
-  Notation from_workbook := (from_workbook W PN view parse_names valid_locale valid_tz valid_lang lex_rc nm).
-  Notation from_bytes := (from_bytes W B dec PN view parse_names valid_locale valid_tz valid_lang lex_rc nm).
+  Notation from_workbook := (from_workbook W PN view parse_names cf_eval valid_locale valid_tz valid_lang lex_rc nm).
+  Notation from_bytes := (from_bytes W B dec PN view parse_names cf_eval valid_locale valid_tz valid_lang lex_rc nm).
   Notation to_bytes := (to_bytes W B enc PN).
   Notation loadable := (fun (m : model W PN) (lang : text) =>
     valid_locale (v_locale (view (m_wb m))) = true /\ valid_tz (v_tz (view (m_wb m))) = true /\ valid_lang lang = true).
@@ -42,20 +46,22 @@ Section PersistProofs.
     destruct (valid_locale _), (valid_tz _), (valid_lang lang); cbn [negb]; discriminate.
   Qed.
 
-  (* the stored workbook is identical, the language is the one asked for, and the parsed
-     structures are functions of the stored workbook alone *)
+  (* the workbook of the loaded model is the stored one up to the values evaluate_conditional_formatting
+     rewrote: everything [view] shows is identical; without conditional formats it is IDENTICAL.
+     The language is the one asked for, the parsed structures are functions of the stored view. *)
   Theorem load_save_workbook m lang m' :
     from_bytes (to_bytes m) lang = Ok m' ->
-    m_wb m' = m_wb m /\ m_lang m' = lang /\
-    m_parsed m' = parse_formulas lex_rc nm (view (m_wb m)) /\ m_names m' = parse_names (m_wb m).
+    m_wb m' = cf_eval (m_wb m) /\ view (m_wb m') = view (m_wb m) /\
+    (v_has_cf (view (m_wb m)) = false -> m_wb m' = m_wb m) /\ m_lang m' = lang /\
+    m_parsed m' = parse_formulas lex_rc nm (view (m_wb m)) /\ m_names m' = parse_names (view (m_wb m)).
   Proof.
     rewrite load_save_is_from_workbook. unfold Persist.from_workbook.
     destruct (valid_locale _), (valid_tz _), (valid_lang lang); cbn [negb]; try discriminate.
-    intro H. injection H as <-. cbn. repeat split.
+    intro H. injection H as <-. cbn. repeat split; auto.
   Qed.
 
   Theorem load_save_exists m lang : loadable m lang ->
-    exists m', from_bytes (to_bytes m) lang = Ok m' /\ m_wb m' = m_wb m.
+    exists m', from_bytes (to_bytes m) lang = Ok m' /\ view (m_wb m') = view (m_wb m).
   Proof.
     intro H. apply load_ok_iff in H as [m' H]. exists m'. split; [exact H|].
     apply load_save_workbook in H. tauto.
@@ -92,17 +98,23 @@ Section PersistProofs.
   Theorem load_save_formulas m lang m' :
     consistent W PN view lex_rc nm m -> from_bytes (to_bytes m) lang = Ok m' -> m_parsed m' = m_parsed m.
   Proof.
-    intros Hc H. apply load_save_workbook in H as (_ & _ & H & _). rewrite H.
+    intros Hc H. apply load_save_workbook in H as (_ & _ & _ & _ & H & _). rewrite H.
     apply consistent_parse_formulas. exact Hc.
   Qed.
 
-  (* a second save/load changes nothing at all any more: the loaded model is a fixed point *)
+  (* a second save/load changes nothing any more in what is stored and parsed (no consistency
+     premise); the whole model is the same if evaluate_conditional_formatting has nothing left to
+     rewrite in the loaded workbook *)
   Theorem load_save_idempotent m lang m' m'' :
-    from_bytes (to_bytes m) lang = Ok m' -> from_bytes (to_bytes m') lang = Ok m'' -> m'' = m'.
+    from_bytes (to_bytes m) lang = Ok m' -> from_bytes (to_bytes m') lang = Ok m'' ->
+    view (m_wb m'') = view (m_wb m') /\ m_parsed m'' = m_parsed m' /\ m_names m'' = m_names m' /\ m_lang m'' = m_lang m' /\
+    (cf_eval (m_wb m') = m_wb m' -> m'' = m').
   Proof.
-    intros H1 H2. apply load_save_workbook in H1 as (Hw & Hl & Hp & Hn).
-    apply load_save_workbook in H2 as (Hw2 & Hl2 & Hp2 & Hn2).
-    destruct m' as [w' p' n' l'], m'' as [w'' p'' n'' l'']. cbn in *. subst. reflexivity.
+    intros H1 H2. apply load_save_workbook in H1 as (Hw & Hv & _ & Hl & Hp & Hn).
+    apply load_save_workbook in H2 as (Hw2 & Hv2 & _ & Hl2 & Hp2 & Hn2).
+    rewrite Hv in Hp2, Hn2.
+    repeat split; try congruence.
+    intro Hfix. destruct m' as [w' p' n' l'], m'' as [w'' p'' n'' l'']. cbn in *. subst. rewrite Hfix. reflexivity.
   Qed.
 End PersistProofs.
 
@@ -142,7 +154,7 @@ Module Example.
   Definition lex0 (t : text) : list token :=
     if text_eqb t t1 then print m_rc1 nm0 e1 else if text_eqb t t2 then print m_rc1 nm0 e2 else [TIllegal].
   Definition w0 : wb_view :=
-    {| v_sheets := [([83], [t1; t2])]; v_defnames := []; v_tables := []; v_locale := [101; 110]; v_tz := [85; 84; 67] |}.
+    {| v_sheets := [([83], [t1; t2])]; v_defnames := []; v_tables := []; v_locale := [101; 110]; v_tz := [85; 84; 67]; v_has_cf := false |}.
   Definition m0 : model wb_view unit := {| m_wb := w0; m_parsed := [[e1; e2]]; m_names := tt; m_lang := [101; 110] |}.
   Definition yes (_ : text) := true.
 
@@ -151,7 +163,7 @@ Module Example.
     unfold consistent. cbn. repeat constructor; vm_compute; reflexivity.
   Qed.
   Lemma m0_loads :
-    from_bytes wb_view wb_view Some unit (fun w => w) (fun _ => tt) yes yes yes lex0 nm0
+    from_bytes wb_view wb_view Some unit (fun w => w) (fun _ => tt) (fun w => w) yes yes yes lex0 nm0
       (to_bytes wb_view wb_view (fun w => w) unit m0) [101; 110] = Ok m0.
   Proof. vm_compute. reflexivity. Qed.
 End Example.
